@@ -123,7 +123,9 @@ pub fn gen_c05(rng: &mut Rng, n: usize, out: &mut Vec<String>) {
         let mut damaged = base.clone();
         let what = rng.below(3);
         let is_kw = |t: &str| t == "proc" || t == "type";
-        let repl = *rng.pick(gen_prog::TOKEN_ALPHABET);
+        // tokens that open a construct (and so invite the parser to read on) more often than their share
+        const OPENERS: &[&str] = &["var", "if", "while", "else", "ref", "array", "of", "{", "(", "[", ":=", ":", ",", "x", "-"];
+        let repl = if rng.chance(1, 3) { *rng.pick(OPENERS) } else { *rng.pick(gen_prog::TOKEN_ALPHABET) };
         match what {
             0 => {
                 if is_kw(&damaged[j].text) { continue; }
